@@ -43,6 +43,14 @@ CLAIMED = {
             'Trusted: mc/ref.py (textbook de Bruijn operations, validated against the finite-model semantics in the self test). CPython '
             'address reuse is observed, not controlled. Terms up to size 6 (thorough 8).',
             'DESIGN.md §3 C03'),
+    'C09': ('exploration',
+            'bounded exhaustive enumeration of pattern/target/seed triples on the real matcher, reference beta-eta normaliser',
+            'Every well-typed pattern up to the size bound (first-order, Miller, non-pattern applications, repeated and polymorphic '
+            'schematic variables, binders named x/y in all combinations) is matched against all of its instances under a value universe, '
+            'all one-leaf perturbations of those instances and small unrelated terms, with empty / compatible / incompatible seeds; a '
+            'success must reproduce the target up to beta-eta, extend and not modify the seed; first-order patterns must match their instances.',
+            'Trusted: mc/ref.py (substitution, beta-eta normal forms). Only type-compatible pairs. Pattern size <=6 (thorough 7).',
+            'DESIGN.md §3 C09'),
 }
 
 PENDING_REASON = 'check not built yet in this round (planned, see DESIGN.md §3/§7); not claimed until its machinery exists'
